@@ -301,6 +301,22 @@ class _FlowChecker:
 
 def rule_c01_r2(model: Model) -> RuleResult:
     r = RuleResult('C01-R2', 'the accepted value of a composite converter depends on the input only through sub-converter results', floor=12)
+    # leaf: a scalar converter always answers with a value constructed by its target type (exactly typed, never the
+    # input object itself, which may be an instance of a subclass such as bool for int)
+    sc = model.func('pane.converters.ScalarConverter.try_convert')
+    scfg = cfg_of(model, sc)
+    snz = Normalizer(model, sc, scfg)
+    r.analysed.add(sc.qualname)
+    for n in scfg.live_nodes():
+        if n.kind == 'return' and n.ast is not None and n.ast.value is not None:
+            r.instances += 1
+            form = snz.expr(n.ast.value, n)
+            if form == 'self.ty(VAL)':
+                r.ok()
+            else:
+                r.fail(sc.qualname, f"return {form}", sc.loc(n.ast),
+                       "a scalar converter hands back something other than self.ty(value): the result is not exactly typed "
+                       "(from_data(True, int) would return True)")
     for cls in family(model):
         if cls.name in LEAF_CLASSES:
             continue
